@@ -34,7 +34,7 @@ try:
             print('skip %s: %s' % (sid, {k: v.get(k) for k in ('demo_clean_rc', 'demo_patched_rc', 'suite_missing', 'apply_error')}))
             continue
         src = v['src']
-        sh(['git', 'checkout', '-q', '--', '.'], cwd=wt)
+        sh(['git', 'reset', '-q', '--hard', 'HEAD'], cwd=wt); sh(['git', 'clean', '-fdq'], cwd=wt)
         rc, out = sh(['git', 'apply', os.path.join(src, 'patch.diff')], cwd=wt)
         if rc != 0:
             rc, out = sh(['git', 'apply', '--3way', os.path.join(src, 'patch.diff')], cwd=wt)
